@@ -124,7 +124,10 @@ def random_heap(r):
         return r.choice(vals) if r.chance(0.6) else r.choice(["n4000000000000000", "b1", "s" + C.hx("ক"), "z"])
     lists = [[v() for _ in range(r.below(4))] for _ in range(nl)]
     records = [[(f"k{j}", v()) for j in range(r.below(4))] for _ in range(nr)]
-    scopes = [[(f"v{s}{j}", v()) for j in range(r.below(4))] for s in range(r.range(1, 3))]
+    # half of the heaps SHADOW: the same variable name is bound in several open scopes (to different containers) — every
+    # binding of every scope is a root, not only the innermost one of each name
+    shadow = r.chance(0.5)
+    scopes = [[((f"v{j}" if shadow else f"v{s}{j}"), v()) for j in range(r.below(4))] for s in range(r.range(1, 4 if shadow else 3))]
     return (scopes, lists, records, [i for i in range(nl) if r.chance(0.1)], [i for i in range(nr) if r.chance(0.1)])
 
 
@@ -162,6 +165,11 @@ def alloc_program(r):
     if r.chance(0.5):
         body.append(("block", [("decl", "ভিতরে", G.bin_("+", G.var("অস্থায়ী"), G.var("রাখা"))), ("print", G.call("_লিস্ট-লেন", G.var("ভিতরে"))),
                                ("decl", "আরও", G.rec((G.s("k"), G.var("ভিতরে")), (G.s("চ"), G.rec())))]))
+    if r.chance(0.6):
+        # open blocks that SHADOW the long-lived containers while allocation (and collections) go on inside them
+        inner = [("decl", "রাখা", r.choice([G.num(1), G.lst(G.s("ছায়া")), G.s("x")])), ("decl", "নথি", r.choice([G.b(True), G.rec((G.s("ছ"), G.lst()))])),
+                 ("decl", "ভরাট", G.lst(G.lst(G.var("গ")), G.rec((G.s("a"), G.lst(G.num(2)))))), ("print", G.var("রাখা"))]
+        body.append(("if", [(G.b(True), inner)], None) if r.chance(0.5) else ("block", inner))
     if r.chance(0.4):
         body.append(("decl", "ভাগ", G.call("_স্ট্রিং-স্প্লিট", G.s("a,b,c"), G.s(","))))
         body.append(("print", G.idx(G.var("ভাগ"), G.num(1))))
